@@ -36,7 +36,7 @@ Qed.
 
 Lemma region_of_created : forall cs l, In (region_of (region_map cs) l) (created cs).
 Proof.
-  intros cs l. unfold region_of, created. destruct l as [[c b]|]; [|left; reflexivity].
+  intros cs l. unfold region_of, created. destruct l as [[[c b] b2]|]; [|left; reflexivity].
   destruct (map_get c (region_map cs)) as [id|] eqn:E; [|left; reflexivity].
   apply map_get_in in E. unfold region_map in E. rewrite map_app in E. apply in_app_iff in E.
   destruct E as [E|[E|[]]]; [right; exact E|left; exact E].
